@@ -346,24 +346,95 @@ CHECKS = {'C01': {'text': 'Lean theorems about an interleaving transition system
          'technique': 'Lean 4 proof (generic over regenerated tables and constructor programs, decidable obligations by decide, symbolic round-trip '
                       'proofs) + AST/introspection translator + differential correspondence with near-miss, boundary-corpus and call-history '
                       'generators + direct oracle'},
- 'C15': {'text': 'Composite of part A (SCPI, USBTMC; Props/C15.lean, 27 theorems) and part B (Interbus, APT, T2; Props/C15B.lean, 55 theorems), all '
-                 'over unbounded payloads/lengths/splits, no _partial. A: scpi_ask_roundtrip, scpi_missing_terminator_errors, scpi_ask_sound, '
-                 'readBinary_roundtrip/encodeBlock (1..9 digits), bad hash/digit count/length/tail => QMI_InstrumentException, '
-                 'readBinary_total/sound; USBTMC device_decodes_write(s) (spec device decoder ∘ write_raw = payload for all max_transfer_size ≥ 1), '
-                 'writeRaw_aligned4, writeRaw_eom_only_last, btag_cycle, readRaw_reassembles (every split), readRaw_refines_hostSpec, '
-                 'incomplete/short-header errors. B (constants, ctypes layouts, escape tables regenerated into Gen/Layouts.lean from the source, '
-                 'side conditions by decide): unescape_escape, escape_no_terminator, crc_appended_is_zero (algebraic), crc_detects_single_byte, '
-                 'decode_encode, bad_crc_rejected, corrupted_frame_rejected, request_response (fuel MAX_RETRY_COUNT), request_response_delivers; APT '
-                 'unpack_pack/pack_unpack, write_data_wire (dest|0x80, length), ask_checks_id/ask_ok_id; T2 batch_split_invariance, counter_spec, '
-                 'timestamp_spec. Tie: the real ScpiProtocol, usbtmc.Instrument, Interbus codec/protocol, AptProtocol + packet classes, '
-                 '_T2EventDecoder driven through scripted fake transports/endpoints, diffed line by line with the Lean drivers (258k cases quick); '
-                 'oracle = independent reference devices written from IEEE 488.2 / USBTMC 1.0 / NKT / APT / PicoQuant documents.',
-         'note': 'Trusted: Lean kernel + 3 axioms; translators (AST patterns, fail loudly) and the reference devices; transports below the codecs '
-                 'are harness fakes (real transports: C13); struct/ctypes/bytes.replace/numpy shift-mask-cumsum mirrored and differentially checked; '
-                 'uint64 wrap out of scope; Rigol/Advantest quirk paths differential only. No known findings. Observation outside the statement: '
-                 'read_raw does not validate MsgID/bTag of Bulk-IN headers (theorem readRaw_tag_fields_unchecked).',
-         'technique': 'Lean 4 proof (round-trip/soundness laws by induction, algebraic CRC residue, generated-layout obligations by decide) + '
-                      'differential correspondence with independent reference devices'},
+ 'C15': {'text': 'Composite of part A (Props/C15.lean) and part B (Props/C15B.lean); ./check C15 runs both and fails if either fails. PART A — SCPI '
+                 '+ USBTMC (part A of C15). 41 Lean theorems over all payloads / lengths / terminators / tags / max_transfer_size>=1 / splits, by '
+                 'induction, no bounds. SCPI: scpi_ask_roundtrip (cmd++term out, reply minus terminator in, rest of buffer untouched), '
+                 'scpi_missing_terminator_errors, scpi_ask_unterminated_errors, scpi_ask_sound; definite-length blocks: readBinary_roundtrip / '
+                 'readBinary_encodeBlock (1..9 digits, any zero padding, terminator flag on/off), readBinary_bad_hash / _bad_digit_count / '
+                 '_bad_length_field / _bad_tail => QMI_InstrumentException, readBinary_total, readBinary_sound (returned data = data field of a '
+                 'well-formed block at the head of the stream). USBTMC write side: device_decodes_write(s) (reference device decoder written from '
+                 'USBTMC 1.0 §3.2 ∘ write_raw = payload), writeRaw_aligned4, writeRaw_eom_only_last (+transfer count, final tag), btag_cycle / '
+                 'btag_after. Read side: readRaw_reassembles (every split, arbitrary padding), readRaw_num_prefix, readRaw_refines_hostSpec '
+                 '(read_raw = the §3.3 host rule on EVERY script, valid or corrupted; for a tree that checks headers the checking rule), '
+                 'readRaw_incomplete_times_out, readRaw_short_header_errors, readRaw_partial_transfer_never_completes. Quirk paths (round 3): '
+                 'readRaw_advantest_single, readRaw_rigol_reassembles(_general), readRaw_rigol_ieee_block (rigol_quirk_ieee_block incl. CPython '
+                 'int(bytes) semantics). Sessions (round 3): session_tags_cycle (any sequence of write_raw/read_raw/ask_raw/trigger with any '
+                 'endpoint faults, abort sequences and device behaviour: Bulk-OUT headers carry consecutive tags of the 1..255 cycle, never 0), '
+                 'abort_keeps_framing_state (abort sequences use the control endpoint only and name last_btag), askRaw_roundtrip, '
+                 'trigger_usb488_frame, readStb_sound, clearSeq_outcome, writeRaw_mts0_never_returns. Header integrity (genuine defect, open): full '
+                 'statement readRaw_rejects_header_mismatch kept as text, proved as readRaw_rejects_header_mismatch_partial for a tree with '
+                 'Cfg.checkHdr (probed from the code on every run), negation witnesses readRaw_tag_fields_unchecked and readRaw_stale_reply_accepted '
+                 '(late answer to a timed-out request is returned as the answer). Tie: ~185k (quick) / 1.6M (thorough) calls of the real '
+                 'ScpiProtocol (recording QMI_Transport-contract fake) and the real usbtmc.Instrument (fake bulk/interrupt endpoints, scripted '
+                 'control status bytes) diffed line-for-line with the Lean driver (transport call logs, time-outs, tags, request bytes, read sizes, '
+                 'control requests, clear_halt); fixed corpus first on every seed (all lengths around k*max, all compositions of a reply, all 256 '
+                 'values at every SCPI header byte, every USBTMC header byte, every control-status script up to length 3, both tag cycles over '
+                 '0..255, int() oddities of the IEEE quirk, multi-call sessions on one instrument with aborts in between, 1 MiB boundary). Oracle = '
+                 'independent Python reference devices written from IEEE 488.2 / USBTMC 1.0 / USB488 (strict device decoder, strict host rule incl. '
+                 'Table 8, RIGOL-style device); the Lean reference device/host are diffed against them too. PART B — Part B of C15 (NKT Interbus, '
+                 'Thorlabs APT — both implementations: AptProtocol/apt_packets and the private layer of Thorlabs_K10CR1 — and the PicoQuant T2/T3 '
+                 'decoders). 95 Lean theorems, generic in the protocol constants; the constants and all ctypes layouts of the CURRENT source are '
+                 'regenerated into Gen/Layouts.lean (AST of the escape/unescape loops, range checks, CRC polynomial, read terminator, T2/T3 shifts '
+                 'and masks, the literals of k10cr1._read_message/create; live MessageType, HOST_BASE_ADDRESS, MAX_RETRY_COUNT, '
+                 '_fields_/offsets/sizeof/MESSAGE_ID/HEADER_ONLY of both APT headers, the 8 apt_packets classes and the 26 classes of '
+                 'k10cr1._apt_message_type_table) and the decidable side conditions are closed by decide (gen_interbus_wf, gen_interbus_strict, '
+                 'gen_interbus_types, gen_apt_headers, gen_apt_layouts, gen_k10_wf, gen_k10_table, gen_t2_wf). Interbus, all payloads and lengths: '
+                 "unescape_escape (the code's sequential bytes.replace passes), device_unescapes and device_decodes_request (independent one-pass "
+                 'spec decoder with recomputed CRC), escape_no_terminator, crc_appended_is_zero (algebraic), crc_detects_single_byte (injectivity), '
+                 'decode_encode for every valid message incl. reserved bytes inside the CRC, bad_crc_rejected, corrupted_frame_rejected (any single '
+                 'content byte), decode_accepts_iff (EXACT acceptance: a frame decodes to m iff delimiters + its content as un-escaped by the code '
+                 'is body(m) followed by the correct CRC of body(m) — via linearity of the CRC step and uniqueness of the residue bytes; so no wrong '
+                 'checksum is ever accepted and the only frames accepted beyond conforming ones are non-canonical spellings of a correctly '
+                 'check-summed telegram, with a decide witness), request_response (fuel MAX_RETRY_COUNT: only an address-matching message is '
+                 'returned, else InstrumentException/Timeout, at most MAX+1 reads), request_response_delivers (reply cut into arbitrary transfers), '
+                 'getRegister_sound/_rejects/_delivers and setRegister_sound/_rejects/_delivers (get returns exactly the data of a DATAGRAM for the '
+                 'asked register from the asked module; NACK/BUSY/other type/other register raise; set returns only after an ACK for the written '
+                 'register). APT (AptProtocol): unpack_pack/pack_unpack for every contiguous layout, write_param_wire, write_data_wire (length '
+                 'field, dest|0x80), ask_data_roundtrip/ask_header_only_roundtrip, ask_checks_id, ask_ok_value (for EVERY receive stream a returned '
+                 'data packet had the expected id, an announced length covering the structure, and is exactly the sizeof bytes after the header), '
+                 'ask_header_only_iff (exactly what is and is not checked for header-only replies: the id is not, with witness), ask_reads_spec '
+                 '(timeout / default timeout reach both reads). APT (K10CR1): k10_read_sound (for every stream: returned class is the table class of '
+                 'the id in the stream, announced size = sizeof, value = exactly those bytes; unknown id, wrong length, partial message raise), '
+                 'k10_read_long/_short (round trip), k10_wait_sound (only the awaited class is returned, any stream, any clock), k10_wait_delivers '
+                 '(awaited reply behind any number of other valid messages), k10_send_spec, k10_create_long (length = sizeof-6, dest|0x80). T2: '
+                 'batch_split_invariance (any cut incl. empty batches), counter_spec, timestamp_spec, events_length, fields_spec, '
+                 "timestamp_decomposes; numpy's uint64 arithmetic is now IN the model (processU64): batch_split_invariance_u64 (no bound at all), "
+                 'processU64_eq_process under the explicit hypothesis (carried + overflow counts)*2^25 + 2^25-1 < 2^64, gen_t2_no_wrap (carried + '
+                 '33554431*#overflow records < 2^39, i.e. more than 16384 maximal overflow records from 0; sharpness witness at 2^39-1). T3 (same '
+                 'carried counter; outside the statement): t3Scan_append, t3_counter_split, and the proved+replayed witness '
+                 't3_sync_duplicated_by_batch_split. Tie: the real _encode/_decode_interbus_message, NKTPhotonicsInterbusProtocol (also several '
+                 'requests through ONE object: toggle, stale replies), AptProtocol + packet classes (also several asks on one stream), '
+                 'Thorlabs_K10CR1._read_message/_wait_message/_send_message/_AptMessage.create (virtual clock), _T2EventDecoder/_T3EventDecoder on '
+                 'numpy arrays, through scripted/recording fake transports, diffed line by line with the Lean driver (64k cases quick / 1.3M '
+                 'thorough; a fixed boundary corpus runs first on every seed: address/register/type/length/retry-count boundaries, short contents '
+                 'with valid checksums, length-field and id boundaries of every APT packet, record types next to the overflow code, counters at 2^39 '
+                 'and 2^64); oracle = independent reference device (binascii.crc_hqx + strict and lenient telegram parsers, struct formats from the '
+                 'APT document for both implementations, PicoQuant-demo-style T2/T3 decoders).',
+         'note': 'PART A — Trusted: Lean kernel + 3 axioms; harness and reference devices; the transport below SCPI is the QMI_Transport contract '
+                 '(C13); struct layouts, ascii codec, isdigit, int(bytes) are mirrored and differentially checked; usb endpoints/device are fakes; '
+                 'open()/close()/capabilities not modelled; Advantest lock()/unlock() pairing is oracle-only. 3 known findings, one root cause: '
+                 'read_raw never validates MsgID/bTag/bTagInverse of a Bulk-IN header (stale or foreign reply returned as data). A repair is drafted '
+                 '(fixes/C15-usbtmc-bulk-in-header-check.diff; ./check C15A is green on it without findings, the model follows via the probe) but '
+                 'cannot be committed: 4 unedited unit tests of tests/core/test_usbtmc.py feed read_raw replies without a matching header. '
+                 'Observations outside the statement: read_stb uses bTag 128 after 127 (USB488 allows 2..127; rstb_tag_128_witness); the RIGOL IEEE '
+                 'quirk misreads a block header that is split across packets; max_transfer_size=0 never returns (not a reachable configuration). '
+                 'PART B — Trusted: Lean kernel + 3 axioms; translator (AST patterns, fails loudly on unknown shapes) and the reference device in '
+                 'harness/props/c15b.py; bytes.replace (1- and 2-byte patterns), ctypes packed little-endian packing incl. modulo storage of '
+                 'out-of-range ints, numpy shift/mask/cumsum/boolean indexing (now with uint64 wrap) are modelled and differentially checked, not '
+                 'verified; T3 float64 arithmetic is modelled as exact integer arithmetic (integer period/resolution, timestamps < 2^53) and '
+                 "np.unique/lexsort as insertion sorts; transports below the codecs are harness fakes (real transports: C13); K10CR1's clock is a "
+                 'linear virtual clock and its 50 ms payload timeout is not modelled. No known findings in part B. Decided against the statement and '
+                 'therefore not demanded by the oracle, but stated as theorems/witnesses: AptProtocol.ask does not compare the id of header-only '
+                 'replies (the statement names data messages; mpc320.is_channel_homed only compares chan_ident); a length field larger than sizeof '
+                 'is accepted (the value is still exactly the sizeof bytes after the header, ask_ok_value) and a smaller one raises ValueError '
+                 'rather than QMI_InstrumentException; Interbus accepts non-canonical spellings of a correctly check-summed telegram '
+                 '(decode_accepts_iff); a header-only K10CR1 message with the long flag and length 0 is read as the header-only message; '
+                 '_T3EventDecoder emits a duplicate SYNC event when the events of one sync period straddle a batch boundary (T3 is not named in the '
+                 'statement).',
+         'technique': 'Lean 4 proof (round-trip / soundness laws by induction over byte, transfer and batch lists; refinement to spec host/device '
+                      'functions; tag-cycle invariant over call sequences; algebraic CRC residue / injectivity / linearity; exact acceptance '
+                      'characterisation; generated-layout obligations by decide; retry loop by fuel induction; uint64 model) + differential '
+                      'correspondence with independent reference devices; model flag probed from the code under test'},
  'C16': {'text': 'Lean theorems over all lines/texts/trees/annotations/type descriptors (mutual structural recursion, no bounds; 50 theorems, none '
                  'partial): comments — strip_exact, strip_comments_exact, load_ignores_comments, strip_newline_style_irrelevant; duplicate keys — '
                  'duplicate_key_rejected, load_ok_iff; dump/load — strip_render_id, load_dump_roundtrip (json as parameter), dump_has_no_cr; typed '
